@@ -258,6 +258,7 @@ class Interp:
         self.max_paths = max_paths
         self.max_depth = max_depth
         self._const_cache = {}
+        self.foreign_names = set()
         self.paths_run = 0
         self.depth = 0
 
@@ -542,6 +543,7 @@ class Interp:
                     short = r[1].split('.')[-1]
                     if short in BUILTIN_TYPES or short in ('SimpleNamespace', 'ModuleType', 'FunctionType', 'BuiltinFunctionType'):
                         return TypeV(short)
+                    self.foreign_names.add(short)
                     return Prim(short)
                 if r[0] == 'module':
                     return Sym('module:' + r[1])
@@ -897,7 +899,7 @@ class Interp:
             return SymStr('join(%s)' % _prov(args[0]))
         if name in ('keys', 'items', 'values') and isinstance(obj, ValueV):
             if obj.elems is None:
-                raise Undecided('%s() of unsized value' % name)
+                return Sym('%s.%s()' % (obj.prov, name))
             if name == 'keys':
                 return ListV(list(obj.elems))
             if name == 'items':
@@ -931,6 +933,8 @@ class Interp:
         if name in ('list', 'tuple'):
             if not args:
                 return ListV([]) if name == 'list' else TupleV([])
+            if isinstance(args[0], (Sym, SymStr)) or (isinstance(args[0], ValueV) and args[0].elems is None):
+                return Sym('%s(%s)' % (name, _prov(args[0])))
             items = self.iterate(args[0], node)
             return ListV(items) if name == 'list' else TupleV(items)
         if name == 'bool':
@@ -945,7 +949,13 @@ class Interp:
             return args[0]
         if name in ('int', 'float'):
             return Sym('%s(%s)' % (name, ','.join(_prov(a) for a in args)))
+        if name not in DOC_CLASSES and not self.repo_has_class(name):
+            # a foreign class (datetime.timezone, ...): opaque value
+            return Sym('%s(%s)' % (name, ','.join(_prov(a) for a in args)))
         raise Undecided('construction of %s (line %s)' % (name, getattr(node, 'lineno', '?')))
+
+    def repo_has_class(self, name):
+        return any(name in m.classes for m in self.repo.modules.values())
 
     def type_of(self, v):
         if isinstance(v, ValueV):
@@ -1010,7 +1020,10 @@ class Interp:
         h = getattr(self, 'p_' + name, None)
         if h is None and name.endswith(('.__repr__', '.__str__', '.__format__')):
             return SymStr('%s(%s)' % (name, ','.join(_prov(x) for x in args)), nonempty=True)
-        if h is None and name.startswith('math.'):
+        if h is None and name in self.foreign_names:
+            # an imported foreign callable / class without a model: opaque result
+            return Sym('%s(%s)' % (name, ','.join(_prov(x) for x in args)))
+        if h is None and name.startswith(('math.', 're.')):
             return Sym('%s(%s)' % (name, ','.join(_prov(x) for x in args)))
         if h is None:
             raise Undecided('call of unknown function %s (line %s)' % (name, getattr(node, 'lineno', '?')))
@@ -1087,6 +1100,8 @@ class Interp:
         return ListV(list(reversed(self.iterate(a[0], n))))
 
     def p_sorted(self, a, k, n):
+        if isinstance(a[0], (Sym, SymStr)) or (isinstance(a[0], ValueV) and a[0].elems is None):
+            return Sym('sorted(%s)' % _prov(a[0]))
         items = self.iterate(a[0], n)
         if len(items) <= 1:
             return ListV(items)
@@ -1164,6 +1179,22 @@ class Interp:
 
     def p_map(self, a, k, n):
         return ListV([self.call_function(a[0], [x], {}, n) for x in self.iterate(a[1], n)])
+
+    def p_divmod(self, a, k, n):
+        return TupleV([Sym('(%s//%s)' % (_prov(a[0]), _prov(a[1])), 'int'), Sym('(%s%%%s)' % (_prov(a[0]), _prov(a[1])), 'int')])
+
+    def p_abs(self, a, k, n):
+        v = a[0]
+        if isinstance(v, ValueV):
+            return ValueV('abs(%s)' % v.prov, v.type, v.elems, v.extra)
+        return Sym('abs(%s)' % _prov(v))
+
+    def p_dropwhile(self, a, k, n):
+        items = self.iterate(a[1], n)
+        i = 0
+        while i < len(items) and self.truth(self.call_function(a[0], [items[i]], {}, n), n):
+            i += 1
+        return ListV(items[i:])
 
     def p_partial(self, a, k, n):
         return Sym('partial(%s)' % ','.join(_prov(x) for x in a))
